@@ -314,6 +314,11 @@ func edgeHas(b *ssa.BasicBlock, succ int, pred func(cond ssa.Value, truth bool) 
 
 // membershipSuccess: the fact (cond,truth) says "v is an element of the list with access path listAP".
 func membershipSuccess(cond ssa.Value, truth bool, v ssa.Value, listAP string) bool {
+	// the list kept as a set (a map filled from every element of the list): a comma-ok lookup of v, directly or
+	// through a method of the same object that returns it
+	if setLookupOf(cond, v, listAP, 0) {
+		return truth
+	}
 	if call, ok := cond.(*ssa.Call); ok {
 		n := an.CalleeName(&call.Call)
 		if n == "slices.Contains" && len(call.Call.Args) == 2 && an.AP(call.Call.Args[0]) == listAP && call.Call.Args[1] == v {
@@ -684,7 +689,16 @@ func ruleCredentials(c *Ctx, rule string) {
 				dom := an.DominatedByEdge(in, func(b *ssa.BasicBlock, succ int) bool {
 					return edgeHas(b, succ, func(cond ssa.Value, truth bool) bool {
 						call, ok := cond.(*ssa.Call)
-						if !ok || an.CalleeName(&call.Call) != "slices.Contains" {
+						if !ok {
+							return false
+						}
+						// membership of the constant "*" in the set kept for the list
+						if len(call.Call.Args) == 2 {
+							if s, isS := strConst(call.Call.Args[1]); isS && s == "*" && setLookupOf(cond, call.Call.Args[1], "recv.Origins", 0) {
+								return truth
+							}
+						}
+						if an.CalleeName(&call.Call) != "slices.Contains" {
 							return false
 						}
 						s, isS := strConst(call.Call.Args[1])
@@ -791,7 +805,14 @@ func ruleDeny(c *Ctx, rule string) {
 	okDeny := false
 	sanitizeInstrs(c, sanitize, func(in ssa.Instruction) {
 		if base, field, val, ok := fieldStoreAny(in); ok && base == "recv" && field == "deny" {
-			okDeny = c.O.Of(val).String() == "binop<==>(call<builtin:len>(recv.Origins), 0)"
+			t := c.O.Of(val).String()
+			okDeny = t == "binop<==>(call<builtin:len>(recv.Origins), 0)"
+			for setAP, listAP := range derivedSets {
+				// the set has an element iff the list has one
+				if listAP == "recv.Origins" && t == "binop<==>(call<builtin:len>("+setAP+"), 0)" {
+					okDeny = true
+				}
+			}
 		}
 	})
 	c.R.Add(rule, c.fk(sanitize), "deny=len(Origins)==0", c.P.Pos(sanitize.Pos()), okDeny, ifelse(okDeny, "deny is stored as len(Origins) == 0", "deny is not derived from the emptiness of the configured origins"))
@@ -1401,6 +1422,19 @@ func ruleCorsProvenance(c *Ctx, rule string) {
 // membershipAssume: every membership test (slices.Contains / slices.Index against 0 or -1) succeeds.
 func membershipAssume(cond ssa.Value) (bool, bool) {
 	v, neg := stripNot(cond)
+	// a lookup in a set derived from a configured list, directly or through a method
+	if ex, ok := v.(*ssa.Extract); ok && ex.Index == 1 {
+		if lk, isLk := ex.Tuple.(*ssa.Lookup); isLk && lk.CommaOk && derivedSets[an.AP(lk.X)] != "" {
+			return !neg, true
+		}
+	}
+	if call, ok := v.(*ssa.Call); ok && len(call.Call.Args) == 2 {
+		for _, listAP := range derivedSets {
+			if setLookupOf(v, call.Call.Args[1], strings.Replace(listAP, "recv", an.AP(call.Call.Args[0]), 1), 0) {
+				return !neg, true
+			}
+		}
+	}
 	if call, ok := v.(*ssa.Call); ok {
 		if n := an.CalleeName(&call.Call); n == "slices.Contains" || n == "slices.ContainsFunc" {
 			return !neg, true
@@ -1597,4 +1631,75 @@ func sanitizeInstrs(c *Ctx, sanitize *ssa.Function, visit func(in ssa.Instructio
 func isBoolType(t types.Type) bool {
 	b, ok := t.Underlying().(*types.Basic)
 	return ok && b.Info()&types.IsBoolean != 0
+}
+
+// derivedSets: access path of a map field -> access path of the list field it is filled from (recv.originSet ->
+// recv.Origins): in some method of the object a range loop over the list stores every element as a key of the map,
+// unconditionally. Indexed once per program by indexDerivedSets.
+var derivedSets = map[string]string{}
+
+func indexDerivedSets(p *an.Prog) {
+	derivedSets = map[string]string{}
+	for _, f := range p.Funcs {
+		if !an.IsLibrary(f) || f.Signature.Recv() == nil {
+			continue
+		}
+		for _, l := range rangeLoops(f) {
+			listAP := an.AP(l.slice)
+			if !strings.HasPrefix(listAP, "recv.") {
+				continue
+			}
+			elem := map[ssa.Value]bool{}
+			for _, e := range l.elems {
+				if v, ok := e.(ssa.Value); ok {
+					elem[v] = true
+				}
+			}
+			hb := l.hdr.Block()
+			body := hb.Succs[0]
+			for _, in := range body.Instrs {
+				mu, ok := in.(*ssa.MapUpdate)
+				if !ok || !elem[mu.Key] {
+					continue
+				}
+				setAP := an.AP(mu.Map)
+				// the body is one block that goes straight back to the header: every element is inserted
+				if strings.HasPrefix(setAP, "recv.") && len(body.Succs) == 1 && body.Succs[0] == hb {
+					derivedSets[setAP] = listAP
+				}
+			}
+		}
+	}
+}
+
+// setLookupOf: cond is "v is a key of the set derived from listAP" — the found flag of a comma-ok lookup, or the
+// result of a method whose every return is such a flag for its own parameter.
+func setLookupOf(cond ssa.Value, v ssa.Value, listAP string, depth int) bool {
+	if depth > 2 {
+		return false
+	}
+	if ex, ok := cond.(*ssa.Extract); ok && ex.Index == 1 {
+		if lk, isLk := ex.Tuple.(*ssa.Lookup); isLk && lk.CommaOk && lk.Index == v && derivedSets[an.AP(lk.X)] == listAP {
+			return true
+		}
+	}
+	call, ok := cond.(*ssa.Call)
+	if !ok {
+		return false
+	}
+	g := an.StaticCallee(&call.Call)
+	if g == nil || !an.InModule(g) || g.Signature.Recv() == nil || len(g.Params) != 2 || len(call.Call.Args) != 2 || len(g.Blocks) == 0 {
+		return false
+	}
+	if call.Call.Args[1] != v || !strings.HasPrefix(listAP, an.AP(call.Call.Args[0])+".") {
+		return false
+	}
+	inner := "recv." + strings.TrimPrefix(listAP, an.AP(call.Call.Args[0])+".")
+	rets := an.Returns(g)
+	for _, r := range rets {
+		if len(r.Results) != 1 || !setLookupOf(an.ReturnValue(r, 0), g.Params[1], inner, depth+1) {
+			return false
+		}
+	}
+	return len(rets) > 0
 }
